@@ -60,7 +60,7 @@ def run(tier, seed):
         cov = walk(rep, tier, rng, label, base, po) if cov is None else dict(cov, regenerated=walk(rep, tier, rng, label, base, po))
     rep.coverage = cov
     rep.assumptions = ["messages with built-in types outside the generic semantics (update mask, aura mask, splines, addon arrays, compressed payloads) are not walked (counted as unsupported)",
-                       "the structural theorem (Thm/C17d.lean) proves the END POSITION for all values of the definitions its matcher accepts (627 of 650 (definition, direction) pairs on the unchanged tree); the reported field widths of non-straight-line messages, definitions with a self.size field and the five Vanilla messages with built-in types are decided on the enumerated encodings only"]
+                       "the structural theorem (Thm/C17d.lean) proves the END POSITION for all values of the definitions its matcher accepts (644 of 650 (definition, direction) pairs on the unchanged tree); the reported field widths of non-straight-line messages, the five Vanilla messages with built-in types are decided on the enumerated encodings only"]
     return rep.finish()
 
 
